@@ -249,6 +249,11 @@ func resolveCache(c *core.Ctx) *cacheAnchors {
 	for _, call := range callsTo(a.add, a.ins) {
 		a.insCall = call
 		for _, arg := range call.Call.Args[1:] {
+			// (the storage key is a string; other precomputed arguments — index keys handed in as a
+			// slice — are not the key function's result)
+			if bt, isB := arg.Type().Underlying().(*types.Basic); !isB || bt.Kind() != types.String {
+				continue
+			}
 			if cc := an.CallOf(arg); cc != nil {
 				if k := an.StaticCallee(&cc.Call); k != nil && c.P.InModule(k) {
 					a.keyFn = k
@@ -828,6 +833,38 @@ func resolveRet(v ssa.Value, p an.Path) ssa.Value { return an.ResolveRetVal(v, p
 
 // ---------------------------------------------------------------- ADD-FLAG
 
+// refusalHelper: call is a call of a private bool helper every 'true' way of which tests a hit in
+// the deletion registry or that the stored version is at least as new as the offered one
+func refusalHelper(call *ssa.Call) (registry, order, ok bool) {
+	if call == nil {
+		return false, false, false
+	}
+	h := an.StaticCallee(&call.Call)
+	if h == nil || !an.PrivateHelper(h) || h.Signature.Results().Len() != 1 || h.Signature.Results().At(0).Type().String() != "bool" {
+		return false, false, false
+	}
+	tps, okp := an.ResultPathsDeep(h, 0, true)
+	if !okp || len(tps) == 0 {
+		return false, false, false
+	}
+	for _, tp := range tps {
+		good := false
+		for _, cd := range tp.Conds {
+			k := condKey(an.NormCond(cd))
+			switch {
+			case strings.Contains(k, ".deleted[") && (strings.HasPrefix(k, "const:nil != ") || strings.HasSuffix(k, " != const:nil")):
+				good, registry = true, true
+			case strings.Contains(k, ".CreatedAt <= recv.evs[") && strings.HasSuffix(k, "].CreatedAt"):
+				good, order = true, true
+			}
+		}
+		if !good {
+			return false, false, false
+		}
+	}
+	return registry, order, true
+}
+
 func runAddFlag(c *core.Ctx) {
 	P := c.P
 	a := resolveCache(c)
@@ -901,6 +938,24 @@ func runAddFlag(c *core.Ctx) {
 				if !insTrue && p.Contains(a.insCall.Block()) {
 					why = "insertion helper refused (duplicate or older)"
 					nRef++
+				}
+				// a private verdict helper that answers 'refuse' only for a registry hit or for a
+				// stored version at least as new (`if c.isStale(eventKey, event) { return false }`)
+				if why == "" {
+					for _, cd := range p.Conds() {
+						if !cd.True {
+							continue
+						}
+						if reg, ord, ok := refusalHelper(an.CallOf(cd.V)); ok {
+							why = "refused by a helper that answers only for registry hits / an at-least-as-new stored version"
+							if reg {
+								nReg++
+							}
+							if ord {
+								nRef++
+							}
+						}
+					}
 				}
 				if why == "" && preRejects[rb] {
 					why = "rejected by a read-locked pre-check each of whose rejections has a counterpart in the write-locked section (ONE-CS)"
